@@ -429,7 +429,16 @@ pub fn generate(rng: &mut Rng) -> ResProgram {
                     features.push("numthreads-expression".into());
                 }
                 let b = body(&mut cx, &resources, &calls, direct, (1, 2), None);
-                text.push_str(&format!("[numthreads({})]\nvoid {}(uint3 dtid : SV_DispatchThreadID)\n{{\n{}}}\n\n", threads, entry, b));
+                // other attributes may stand before or after numthreads
+                let (before, after) = match cx.rng.below(4) {
+                    0 => ("[WaveSize(32)]\n", ""),
+                    1 => ("", "[WaveSize(32)]\n"),
+                    _ => ("", ""),
+                };
+                if !before.is_empty() || !after.is_empty() {
+                    features.push("entry-with-several-attributes".into());
+                }
+                text.push_str(&format!("{}[numthreads({})]\n{}void {}(uint3 dtid : SV_DispatchThreadID)\n{{\n{}}}\n\n", before, threads, after, entry, b));
                 compute_entries.push(entry.clone());
                 entry
             };
